@@ -62,7 +62,7 @@ package broker
 //@   requires [session] sess_ok(s)
 //@   ensures [first-match] sub == ptr(lastfirst, *packet.Subscription)
 //@   ensures [tree] sess_ok(s) && held == old(held)
-//@   modifies held, lastfirst, anystop
+//@   modifies held, lastfirst, anystop, seen
 //
 // applyQOS: the message handed on carries min(message QoS, subscription QoS);
 // the queued message itself is never modified (other sessions share it) - the
@@ -75,7 +75,7 @@ package broker
 //@   ensures [content] r.Topic == old(msg.Topic) && r.Payload == old(msg.Payload) && (r.Retain <==> old(msg.Retain)) && r.QOS <= old(msg.QOS)
 //@   ensures [intact] msg.QOS == old(msg.QOS) && msg.Topic == old(msg.Topic) && msg.Payload == old(msg.Payload) && (msg.Retain <==> old(msg.Retain))
 //@   ensures [unlocked] held == old(held) && sess_ok(s)
-//@   modifies held, lastfirst, anystop
+//@   modifies held, lastfirst, anystop, seen
 //
 //@ func (s *memorySession) reuse()
 //@   requires [session] s != nil
@@ -103,7 +103,7 @@ package broker
 //@   ensures [retained-cleared] old(msg.Retain) && len(msg.Payload) == 0 ==> nemptied[m.retainedMessages][msg.Topic] == old(nemptied[m.retainedMessages][msg.Topic]) + 1 && tlast == old(tlast)
 //@   ensures [retained-untouched] !old(msg.Retain) ==> tlast == old(tlast) && nemptied == old(nemptied)
 //@   ensures [released] held == old(held)
-//@   modifies msg.Retain, any(topic.node.values), anymap(map[string]*topic.node), elemsof(iface), isnode, held, tlast, nemptied, lastfirst, nchansend, anystop
+//@   modifies msg.Retain, any(topic.node.values), anymap(map[string]*topic.node), elemsof(iface), isnode, held, tlast, nemptied, lastfirst, nchansend, anystop, seen
 //@   loop 1 invariant [state] held == old(held)[m.globalMutex := 2] && !msg.Retain && msg.Topic == old(msg.Topic) && msg.Payload == old(msg.Payload) && msg.QOS == old(msg.QOS) && backend_ok(m)
 //@   loop 2 invariant [state] held == old(held)[m.globalMutex := 2] && !msg.Retain && msg.Topic == old(msg.Topic) && msg.Payload == old(msg.Payload) && msg.QOS == old(msg.QOS) && backend_ok(m)
 //@ functype "func(s *broker.memorySession) chan *packet.Message" (s *memorySession) (ch chan *packet.Message)
@@ -146,7 +146,7 @@ package broker
 //@   ensures [stored] forall i int {subs[i]} :: 0 <= i && i < len(subs) && (forall j int {subs[j]} :: i < j && j < len(subs) ==> subs[j].Topic != subs[i].Topic) ==> tlast[as(client.session, *memorySession).subscriptions][subs[i].Topic] != 0 && ptr(tlast[as(client.session, *memorySession).subscriptions][subs[i].Topic], *packet.Subscription).Topic == subs[i].Topic && ptr(tlast[as(client.session, *memorySession).subscriptions][subs[i].Topic], *packet.Subscription).QOS == subs[i].QOS
 //@   ensures [request-intact] forall i int {subs[i]} :: 0 <= i && i < len(subs) ==> subs[i].Topic == old(subs[i].Topic) && subs[i].QOS == old(subs[i].QOS)
 //@   ensures [released] held == old(held)
-//@   modifies any(topic.node.values), anymap(map[string]*topic.node), elemsof(iface), isnode, held, tlast, nenqueued, lastenqueued, anystop
+//@   modifies any(topic.node.values), anymap(map[string]*topic.node), elemsof(iface), isnode, held, tlast, nenqueued, lastenqueued, anystop, seen
 //@   loop 1 invariant [stored] 0 <= rangeindex + 1 && rangeindex + 1 <= len(subs) && held == old(held)[m.globalMutex := 2] && backend_ok(m) && own_session(client) && (forall i int {subs[i]} :: 0 <= i && i < len(subs) ==> subs[i].Topic == old(subs[i].Topic) && subs[i].QOS == old(subs[i].QOS)) && forall i int {subs[i]} :: 0 <= i && i <= rangeindex && (forall j int {subs[j]} :: i < j && j <= rangeindex ==> subs[j].Topic != subs[i].Topic) ==> tlast[as(client.session, *memorySession).subscriptions][subs[i].Topic] != 0 && ptr(tlast[as(client.session, *memorySession).subscriptions][subs[i].Topic], *packet.Subscription).Topic == subs[i].Topic && ptr(tlast[as(client.session, *memorySession).subscriptions][subs[i].Topic], *packet.Subscription).QOS == subs[i].QOS
 //@   loop 2 invariant [replay] 0 <= rangeindex + 1 && rangeindex + 1 <= len(subs) && held == old(held)[m.globalMutex := 2] && backend_ok(m) && own_session(client)
 //@   loop 3 invariant [values] 0 <= rangeindex + 1 && rangeindex + 1 <= len(values) && held == old(held)[m.globalMutex := 2] && forall i int {values[i]} :: 0 <= i && i < len(values) ==> values[i] != nil && dyn(values[i]) == typetag(*packet.Message) && payload(values[i]) != 0
@@ -164,7 +164,7 @@ package broker
 //@   requires [backend] client != nil && own_session(client)
 //@   ensures [no-ack] ack == nil && err == nil
 //@   ensures [released] held == old(held)
-//@   modifies held, lastfirst, anystop
+//@   modifies held, lastfirst, anystop, seen
 //
 // Terminate (C13, C14): detaches the client from its session and from both
 // tables; never panics, also for a client whose Setup failed (no session).
